@@ -129,6 +129,17 @@ def projection(e):
   P['tabbar'] = [dict(id=r, view=int(v['viewRef'] or 0)) for r, v in rows_of(e, '_grist_TabBar')]
   P['pages'] = [dict(id=r, view=int(v['viewRef'] or 0)) for r, v in rows_of(e, '_grist_Pages')]
   P['schema'] = sorted(t for t in e.tables if not t.startswith('_grist_'))
+  # further metadata tables that name columns, tables or sections (Python oracle only; not in the Coq model)
+  other = []
+  for tb, refs, lists in (('_grist_Filters', ('viewSectionRef', 'colRef'), ()),
+                          ('_grist_Cells', ('tableRef', 'colRef'), ()),
+                          ('_grist_Triggers', ('tableRef', 'isReadyColRef'), ('watchedColRefList',))):
+    if tb not in e.tables:
+      continue
+    for r, v in rows_of(e, tb):
+      other.append(dict(table=tb, id=r, refs={k: int(v[k] or 0) for k in refs if k in v},
+                        lists={k: reflist(v[k]) for k in lists if k in v}))
+  P['other'] = other
   return P
 
 
@@ -202,6 +213,17 @@ def refs_resolve(P):
   for p in P['pages']:
     if p['view'] not in V:
       iss.append(('page.viewRef', p['id'], p['view']))
+  # filters, comment cells and triggers name sections, tables and columns (0 = none)
+  target = {'viewSectionRef': S, 'tableRef': T, 'colRef': C, 'isReadyColRef': C, 'watchedColRefList': C}
+  for o in P.get('other', ()):
+    short = o['table'].replace('_grist_', '').lower()
+    for k, x in o['refs'].items():
+      if x and x not in target[k]:
+        iss.append(('%s.%s' % (short, k), o['id'], x))
+    for k, xs in o['lists'].items():
+      for x in xs:
+        if x not in target[k]:
+          iss.append(('%s.%s' % (short, k), o['id'], x))
   names = [t['name'] for t in P['tables']]
   if sorted(names) != list(P['schema']):
     iss.append(('tables-vs-schema', sorted(names), list(P['schema'])))
@@ -234,8 +256,9 @@ WEIGHTS = {
   'rmfield': 3, 'addfield': 2, 'customsection': 1, 'detach': 1, 'rmhelper': 1, 'rmtablerec': 1, 'rmcolrec': 2,
   'hiddencol': 1, 'linksection': 2, 'dupfield': 0,
   'refsummary': 4, 'setvisible': 4, 'showcol': 4, 'rulecross': 1, 'rmlastwidget': 4, 'sumvisible': 4,
+  'addfilter': 2, 'addtrigger': 2, 'sumfielddecor': 4,
 }
-RAW_WRITES = ('linksection', 'addfield', 'dupfield', 'droprule', 'movepage', 'setvisible')
+RAW_WRITES = ('linksection', 'addfield', 'dupfield', 'droprule', 'movepage', 'setvisible', 'addfilter', 'addtrigger')
 
 
 def make_gen(rng, weights=None):
@@ -438,6 +461,35 @@ def make_gen(rng, weights=None):
         if not sc or not plain:
           return None
         return ['AddEmptyRule', r.choice(plain)['name'], 0, r.choice(sc)['id']]
+      if kind == 'addfilter':
+        cand = [(s, c) for s in secs for c in vis if s['view']]
+        if not cand:
+          return None
+        s, c = r.choice(cand)       # also columns of other tables: only back-reference clearing protects those
+        return ['AddRecord', '_grist_Filters', None, {'viewSectionRef': s['id'], 'colRef': c['id'],
+                                                      'filter': '{"included":[]}'}]
+      if kind == 'addtrigger':
+        if not vis:
+          return None
+        cs = r.sample(vis, min(len(vis), r.randint(1, 2)))
+        return ['AddRecord', '_grist_Triggers', None,
+                {'tableRef': cs[0]['parent'], 'eventTypes': ['L', 'add'], 'isReadyColRef': r.choice([0, cs[0]['id']]),
+                 'watchedColRefList': ['L'] + [c['id'] for c in cs], 'actions': '[]'}]
+      if kind == 'sumfielddecor':
+        # a field of a summary widget gets its own show column + display helper, or a rule
+        S = {s['id']: s for s in secs}
+        sumids = set(t['id'] for t in summ)
+        fs = [f for f in flds if f['section'] in S and S[f['section']]['table'] in sumids and S[f['section']]['view']]
+        if not fs:
+          return None
+        f = r.choice(fs)
+        c = [x for x in cols if x['id'] == f['col']]
+        if not c:
+          return None
+        tn = tname.get(c[0]['parent'])
+        if r.random() < 0.5:
+          return ['AddEmptyRule', tn, f['id'], 0]
+        return ['SetDisplayFormula', tn, f['id'], None, r.choice(['$id', '$%s' % c[0]['colId'], 'rec.id + 2'])]
       if kind == 'sumvisible':
         # a formula column of one summary table only, shown in its widgets: a later regrouping has to add it to
         # the target table and move the fields
@@ -906,6 +958,8 @@ def translate(a, P, Q, names, rgs=()):
                                                             'description', 'sortColRefs', 'filterSpec', 'chartType'}:
       return NOMETA          # cells the model does not carry (the oracle checks the link references)
     return UNMODELLED
+  if name == 'AddRecord' and a[1] in ('_grist_Filters', '_grist_Triggers', '_grist_Cells'):
+    return NOMETA            # tables the model does not carry (their references are checked by the oracle)
   if name == 'AddRecord' and a[1] == '_grist_Views_section_field':
     if set(a[3]) == {'parentId', 'colRef'} and a[2] is None:
       return ('OAddField', a[3]['parentId'], a[3]['colRef'])
@@ -1005,7 +1059,7 @@ def case_terms(r, names):
   ops = [translate(a, snaps[i], snaps[i + 1], names, [g for g in r.get('regroups', ()) if g['action'] == i])
          for i, a in enumerate(r['bundle'])]
   r['ops'] = ops
-  verdict = not [i for i in refs_resolve(r['final']) if i[0] not in EXTRA_KINDS]
+  verdict = not [i for i in refs_resolve(r['final']) if not extra_kind(i[0])]
   return '(%s, %s, %s, %s, %s)' % (coq_meta(snaps[0], names), core.coq_list([coq_op(o) for o in ops]),
                                   coq_meta(r['mid'], names), coq_meta(r['final'], names), core.boollit(verdict))
 
@@ -1017,7 +1071,7 @@ def case_defs(i, r, names):
   ops = [translate(a, snaps[k], snaps[k + 1], names, [g for g in r.get('regroups', ()) if g['action'] == k])
          for k, a in enumerate(r['bundle'])]
   r['ops'] = ops
-  verdict = not [x for x in refs_resolve(r['final']) if x[0] not in EXTRA_KINDS]
+  verdict = not [x for x in refs_resolve(r['final']) if not extra_kind(x[0])]
   r['verdict'] = verdict
   metas = [coq_meta(x, names).replace('%Z', '') for x in (snaps[0], r['mid'], r['final'])]
   return (metas, core.coq_list([coq_op(o) for o in ops]).replace('%Z', ''),
@@ -1086,6 +1140,10 @@ def run_multi(ctx, name, items, checks, shard=60, timeout=300):
 
 # issues the Python oracle reports beyond the Coq boolean (columns the model does not carry)
 EXTRA_KINDS = ('table.no-record-card', 'section.linkSrcCol', 'section.linkTargetCol', 'section.linkSrcSectionRef')
+
+
+def extra_kind(k):
+  return k in EXTRA_KINDS or k.split('.')[0] in ('filters', 'cells', 'triggers')
 
 CHECK_STEPS = ('fun c => match c with (pre, ops, mid, fin, v) => '
                'match steps ops pre with Ok m => meta_eqb m mid | Unmodelled => true | Fail => false end end')
@@ -1248,6 +1306,48 @@ TARGETED += [
                [['AddVisibleColumn', 'T_summary_A', 'X', {'isFormula': True, 'formula': '2'}],
                 ['AddVisibleColumn', 'T_summary_A_B', 'X', {'isFormula': True, 'formula': '1'}]],
                [['UpdateSummaryViewSection', 7, [2]]]],                    # same name, other formula: a further column
+]
+
+
+# column references outside the column/field/section records proper: the back-reference clearing of
+# doBulkRemoveRecord is the only thing that keeps them from dangling when the column goes away with its table
+FIELD_DOC = [[['AddTable', 'People', [{'id': 'name', 'type': 'Text'}]]],
+             [['AddTable', 'Orders', [{'id': 'who', 'type': 'Ref:People'}, {'id': 'kind', 'type': 'Text'}]]],
+             [['CreateViewSection', 2, 0, 'record', [4, 5], None]],     # Orders_summary_kind_who: page section 8
+             # field 13 (who) of the page section gets a show column, a display helper and a rule of its own:
+             # the helper columns 10 and 11 live in the summary table
+             [['UpdateRecord', '_grist_Views_section_field', 13, {'visibleCol': 2}],
+              ['SetDisplayFormula', 'Orders_summary_kind_who', 13, None, '$who.name']],
+             [['AddEmptyRule', 'Orders_summary_kind_who', 13, None]]]
+LINK_DOC = [[['AddTable', 'B', [{'id': 'x', 'type': 'Text'}]]],
+            [['AddTable', 'A', [{'id': 'b', 'type': 'Ref:B'}]]],
+            [['CreateViewSection', 2, 2, 'record', None, None]],        # section 7 shows A
+            [['CreateViewSection', 1, 2, 'detail', None, None]],        # section 8 shows B
+            [['BulkAddRecord', 'A', [None, None], {}]]]
+TARGETED += [
+  FIELD_DOC + [[['UpdateSummaryViewSection', 8, [4]]]],       # the field moves, the old table is auto-removed
+  FIELD_DOC + [[['RemoveColumn', 'Orders', 'kind']]],
+  FIELD_DOC + [[['UpdateSummaryViewSection', 8, [4]], ['AddColumn', 'Orders', 'Z', {'type': 'Int', 'isFormula': False}]]],
+  FIELD_DOC + [[['RemoveTable', 'Orders']]],
+  LINK_DOC + [[['UpdateRecord', '_grist_Views_section', 8, {'linkSrcSectionRef': 7, 'linkSrcColRef': 4}]],
+              [['RemoveTable', 'A']]],
+  LINK_DOC + [[['UpdateRecord', '_grist_Views_section', 8, {'linkSrcSectionRef': 7, 'linkSrcColRef': 4}]],
+              [['RemoveColumn', 'A', 'b']]],
+  LINK_DOC + [[['UpdateRecord', '_grist_Views_section', 8, {'linkSrcSectionRef': 7, 'linkTargetColRef': 2}]],
+              [['RemoveColumn', 'B', 'x']]],
+  LINK_DOC + [[['AddRecord', '_grist_Filters', None, {'viewSectionRef': 8, 'colRef': 4, 'filter': '{"included":[]}'}]],
+              [['RemoveTable', 'A']]],
+  LINK_DOC + [[['AddRecord', '_grist_Filters', None, {'viewSectionRef': 7, 'colRef': 4, 'filter': '{"included":[]}'}]],
+              [['RemoveColumn', 'A', 'b']]],
+  LINK_DOC + [[['AddRecord', '_grist_Triggers', None, {'tableRef': 1, 'eventTypes': ['L', 'add'], 'isReadyColRef': 4,
+                                                       'watchedColRefList': ['L', 4, 2], 'actions': '[]'}]],
+              [['RemoveTable', 'A']]],
+  LINK_DOC + [[['AddRecord', '_grist_Triggers', None, {'tableRef': 2, 'eventTypes': ['L', 'add'], 'isReadyColRef': 4,
+                                                       'watchedColRefList': ['L', 4], 'actions': '[]'}]],
+              [['RemoveColumn', 'A', 'b']]],
+  LINK_DOC + [[['AddRecord', '_grist_Cells', None, {'tableRef': 2, 'colRef': 4, 'rowId': 1, 'type': 1, 'root': True,
+                                                    'content': '{}'}]],
+              [['RemoveTable', 'A']]],
 ]
 
 
